@@ -10,6 +10,11 @@ namespace Pandora.Go
 inductive C11Guard where
   /-- between `X.Lock()` (or `RLock`) and the matching `Unlock` / deferred `Unlock` of mutex `X` -/
   | mutex (name : String)
+  /-- between `X.RLock()` and `X.RUnlock()` of a `sync.RWMutex`: protects reads only -/
+  | rmutex (name : String)
+  /-- inside the function passed to `X.Do` of a `sync.Once`, or after that call in the same function (the completion of
+  the function synchronizes before the return of every `Do`) -/
+  | once (name : String)
   /-- the field is a `sync/atomic` value, accessed through its methods -/
   | atomic
   /-- `sync.Map` -/
@@ -39,6 +44,12 @@ def C11LockRow.guarded (r : C11LockRow) : Bool :=
   | .none => false
   | _ => true
 
+/-- a read lock does not protect a write -/
+def C11LockRow.modeOk (r : C11LockRow) : Bool :=
+  match r.guard with
+  | .rmutex _ => !r.write
+  | _ => true
+
 def C11LockRow.frozen (r : C11LockRow) : Bool :=
   match r.guard with
   | .frozen => true
@@ -47,10 +58,10 @@ def C11LockRow.frozen (r : C11LockRow) : Bool :=
 /-- some access site of object `o` relies on the object being frozen after set-up -/
 def c11ObjFrozen (tbl : List C11LockRow) (o : Nat) : Bool := tbl.any fun r => r.oid == o && r.frozen
 
-/-- the row is consistent with ONE sharing class for its object: it is guarded; and if any site of the object relies
+/-- the row is consistent with ONE sharing class for its object: it is guarded (a write not merely by a read lock); and if any site of the object relies
 on it being frozen, then this site is a read (the object is `sharedRO`), else this site is synchronised -/
 def c11RowOk (tbl : List C11LockRow) (r : C11LockRow) : Bool :=
-  r.guarded && (if c11ObjFrozen tbl r.oid then !r.write else !r.frozen)
+  (r.guarded && r.modeOk) && (if c11ObjFrozen tbl r.oid then !r.write else !r.frozen)
 
 def c11TableOk (tbl : List C11LockRow) : Bool := tbl.all (c11RowOk tbl)
 
